@@ -68,6 +68,8 @@ type Instance struct {
 	logs []*ctlog.Log // every Log ever loaded (to close cache connections)
 	justLoaded bool
 	cacheEpoch int
+	cacheSnap  []byte
+	slow       bool
 }
 
 func (in *Instance) config(inc int) *ctlog.Config {
@@ -250,7 +252,7 @@ func (w *World) makeItem(k int, shape int) *Item {
 // submit starts a submitter task for item it on instance in.
 func (w *World) submit(in *Instance, it *Item, low bool, plan []int) *Submission {
 	s := &Submission{ID: len(w.subs), Item: it, Inst: in.idx, Inc: in.inc, Low: low,
-		StartStep: w.sim.Step, StartTime: time.Now(), Index: -1}
+		StartStep: w.sim.Step, StartTime: time.Now(), Index: -1, cacheEpoch: in.cacheEpoch}
 	w.subs = append(w.subs, s)
 	w.plan, w.planPos = plan, 0
 	l := in.log
@@ -296,7 +298,7 @@ func poolInfo(l *ctlog.Log) (int, int) {
 // submitHTTP sends the item's chain through the real HTTP handler.
 func (w *World) submitHTTP(in *Instance, it *Item, plan []int) *Submission {
 	s := &Submission{ID: len(w.subs), Item: it, Inst: in.idx, Inc: in.inc, HTTP: true,
-		StartStep: w.sim.Step, StartTime: time.Now(), Index: -1}
+		StartStep: w.sim.Step, StartTime: time.Now(), Index: -1, cacheEpoch: in.cacheEpoch}
 	w.subs = append(w.subs, s)
 	w.plan, w.planPos = plan, 0
 	h := in.handler
